@@ -237,7 +237,7 @@ Definition slots_ok (ts : list tslot) : Prop :=
   (forall f v g, In (f, v, Some g) ts ->
      exists nm t ls e ty, f = Fld nm (Some t) ls e ty /\
        (forall r, exists rest, tag_dec false (g ++ r) = Ok (t, rest)) /\
-       (forall fuel r, (depth ty <= fuel)%nat -> next_ok t r -> dec fuel ls e ty (Some t) (g ++ r) = Ok (v, r))) /\
+       (forall fuel r, (depth ty <= fuel)%nat -> (needs_next ty = true -> next_ok t r) -> dec fuel ls e ty (Some t) (g ++ r) = Ok (v, r))) /\
   (forall f v, In (f, v, None) ts -> v = default_value (f_ty f) /\ is_optional (f_ty f) = true).
 
 Definition slot_of (f : field) (v : value) (g : bytes) : tslot := (f, v, if is_nil g then None else Some g).
@@ -273,7 +273,7 @@ Proof.
     + intros f v g' [E|Hin]; [|apply (Hpres f v g' Hin)].
       unfold slot_of in E. destruct g as [|b0 g0]; cbn [is_nil] in E; [discriminate|]. injection E as <- <- <-.
       exists nm, tn, l', e', t'. split; [reflexivity|]. split; [apply Hne; discriminate|].
-      intros fuel r Hf Hn. apply Hd; [exact Hf|exact I|intros _; exact Hn|right; discriminate].
+      intros fuel r Hf Hn. apply Hd; [exact Hf|exact I|exact Hn|right; discriminate].
     + intros f v [E|Hin]; [|apply (Habs f v Hin)].
       unfold slot_of in E. destruct g as [|b0 g0]; cbn [is_nil] in E; [|discriminate]. injection E as <- <-.
       cbn [f_ty]. apply Hnil. reflexivity.
@@ -366,7 +366,7 @@ Proof.
       unfold tagged_allowed in Ha. destruct tail as [[|b tl0]|]; try discriminate. cbn [fits] in Hfit. subst tl. exact I.
   - apply Hpos; [exact Hdep|]. destruct tail as [tl0|]; [cbn [fits] in Hfit; subst tl; reflexivity|exact I].
   - intros k f v g Hn. apply nth_error_In in Hn. destruct (Hpres f v g Hn) as [nm [t [ls [e [ty [Ef [Hst Hd]]]]]]].
-    exists nm, t, ls, e, ty. split; [exact Ef|]. split; [exact Hst|]. intros r Hr. apply Hd; [|exact Hr].
+    exists nm, t, ls, e, ty. split; [exact Ef|]. split; [exact Hst|]. intros r Hr. apply Hd; [|intros _; exact Hr].
     subst f. apply (Hdep (Fld nm (Some t) ls e ty)). rewrite Hfs. apply in_or_app. right.
     apply in_map_iff. exists (Fld nm (Some t) ls e ty, v, Some g). split; [reflexivity|exact Hn].
   - exact Habs.
@@ -724,7 +724,7 @@ Proof.
   - exact HP.
   - apply Hpos; [exact Hdep|exact I].
   - intros k f v g Hn. apply nth_error_In in Hn. destruct (Hpres f v g Hn) as [nm [t [ls [e [ty [Ef [Hst Hd]]]]]]].
-    exists nm, t, ls, e, ty. split; [exact Ef|]. split; [exact Hst|]. intros r Hr. apply Hd; [|exact Hr].
+    exists nm, t, ls, e, ty. split; [exact Ef|]. split; [exact Hst|]. intros r Hr. apply Hd; [|intros _; exact Hr].
     subst f. apply (Hdep (Fld nm (Some t) ls e ty)). rewrite Hfs. apply in_or_app. right.
     apply in_map_iff. exists (Fld nm (Some t) ls e ty, v, Some g). split; [reflexivity|exact Hn].
   - exact Habs.
@@ -735,6 +735,109 @@ Proof.
   intros HP. induction HP as [|g l l' HP IH|a b l|l1 l2 l3 H1 IH1 H2 IH2]; [reflexivity| | |congruence].
   - unfold gbytes in *. cbn [map concat]. rewrite !blen_app, IH. reflexivity.
   - unfold gbytes. cbn [map concat]. rewrite !blen_app. lia.
+Qed.
+
+(* ---------- C13 for the class: a duplicated tagged group is rejected, naming its tag ---------- *)
+(* layouts without a repeated tagged field: every tagged group is decodable whatever follows it (a repeated field is the one
+   case where a second occurrence of the tag is more elements, not a duplicate) *)
+Definition no_tagged_vec (fs : list field) : bool :=
+  forallb (fun f => match f_tag f with Some _ => negb (needs_next (f_ty f)) | None => true end) fs.
+
+Theorem canon_duplicate_rejected fs v pl : canon_anyorder fs v = Some pl -> no_tagged_vec fs = true ->
+  exists vs (pos : bytes) (gs : list group), v = VRec vs /\ pl = pos ++ gbytes gs /\
+    forall d after fuel, In d gs -> (depth_fields fs <= S fuel)%nat ->
+      dec_struct_with (dec fuel) fs (pos ++ gbytes gs ++ g_bytes d ++ after) = Err (DuplicateTag (g_tag d)).
+Proof.
+  unfold canon_anyorder. destruct v as [| | | | | | |vs]; try discriminate.
+  destruct (nodup_b (tags_of fs)) eqn:End; [|discriminate]. intros H Hnv.
+  destruct (canon_fields_pos fs vs None true pl (fun f _ => canon_sound _ _ (le_n _)) H)
+    as [ps [ts [Hfs [Hvs [Hpl [Hup [Htg [Hal [Henc [[Hpres Habs] Hpos]]]]]]]]]].
+  set (pfs := map (fun x : field * value * bytes => fst (fst x)) ps) in *.
+  set (tfs := map (fun s : tslot => fst (fst s)) ts) in *.
+  exists vs, (concat (map snd ps)), (groups_from (length pfs) ts).
+  split; [reflexivity|]. split; [rewrite gbytes_groups_from; exact Hpl|].
+  intros d after fuel Hin Hf. pose proof (fields_depth fs fuel Hf) as Hdep.
+  assert (Hnd : NoDup (tags_of tfs)).
+  { apply nodup_b_ok in End. rewrite Hfs, tags_of_app, (tags_of_untagged _ Hup) in End. exact End. }
+  assert (HpresN : forall k f v g, nth_error ts k = Some (f, v, Some g) ->
+            exists nm t ls e ty, f = Fld nm (Some t) ls e ty /\
+              (forall r, exists rest, tag_dec false (g ++ r) = Ok (t, rest)) /\
+              (forall r, next_ok t r -> dec fuel ls e ty (Some t) (g ++ r) = Ok (v, r))).
+  { intros k f v g Hn. apply nth_error_In in Hn. destruct (Hpres f v g Hn) as [nm [t [ls [e [ty [Ef [Hst Hd]]]]]]].
+    exists nm, t, ls, e, ty. split; [exact Ef|]. split; [exact Hst|]. intros r Hr. apply Hd; [|intros _; exact Hr].
+    subst f. apply (Hdep (Fld nm (Some t) ls e ty)). rewrite Hfs. apply in_or_app. right.
+    apply in_map_iff. exists (Fld nm (Some t) ls e ty, v, Some g). split; [reflexivity|exact Hn]. }
+  assert (HpresS : forall k f v g, nth_error ts k = Some (f, v, Some g) ->
+            exists nm t ls e ty, f = Fld nm (Some t) ls e ty /\
+              (forall r, exists rest, tag_dec false (g ++ r) = Ok (t, rest)) /\
+              (forall r, dec fuel ls e ty (Some t) (g ++ r) = Ok (v, r))).
+  { intros k f v g Hn. apply nth_error_In in Hn. destruct (Hpres f v g Hn) as [nm [t [ls [e [ty [Ef [Hst Hd]]]]]]].
+    exists nm, t, ls, e, ty. split; [exact Ef|]. split; [exact Hst|]. intros r.
+    assert (Hinf : In f fs).
+    { rewrite Hfs. apply in_or_app. right. apply in_map_iff. exists (f, v, Some g). split; [reflexivity|exact Hn]. }
+    assert (Hnn : needs_next ty = false).
+    { unfold no_tagged_vec in Hnv. rewrite forallb_forall in Hnv. specialize (Hnv f Hinf). subst f. cbn [f_tag f_ty] in Hnv.
+      destruct (needs_next ty); [discriminate|reflexivity]. }
+    apply Hd; [|rewrite Hnn; discriminate].
+    subst f. apply (Hdep _ Hinf). }
+  destruct (slots_facts (dec fuel) ps ts Hup Htg Hnd HpresN Habs) as [Hu [_ [Hnt _]]].
+  pose proof (slots_groups_strict (dec fuel) ps ts Hup Hnd HpresS) as Hstrict.
+  fold pfs tfs in Hu, Hnt, Hstrict. rewrite Hfs.
+  apply (duplicate_rejected (dec fuel) (pfs ++ tfs) ps (groups_from (length pfs) ts) d after).
+  - exact Hu.
+  - apply Hpos; [exact Hdep|exact I].
+  - exact Hstrict.
+  - exact Hnt.
+  - rewrite Forall_forall in Hstrict. apply Hstrict. exact Hin.
+  - apply in_map. exact Hin.
+Qed.
+
+(* ---------- C13 for the class: removing tagged groups — every missing mandatory tag is named ---------- *)
+Lemma NoDup_map_filter {A B} (f : A -> B) (p : A -> bool) l : NoDup (map f l) -> NoDup (map f (filter p l)).
+Proof.
+  induction l as [|x l IH]; intros H; [constructor|]. cbn [map] in H. inversion H as [|? ? Hn Hd]; subst. cbn [filter].
+  destruct (p x); [|apply IH; exact Hd]. cbn [map]. constructor; [|apply IH; exact Hd].
+  intros Hin. apply Hn. apply in_map_iff in Hin. destruct Hin as [y [E Hy]]. apply filter_In in Hy. destruct Hy as [Hy _].
+  rewrite <- E. apply in_map. exact Hy.
+Qed.
+
+Theorem canon_missing_named fs v pl : canon_anyorder fs v = Some pl ->
+  exists vs (pos : bytes) (gs : list group), v = VRec vs /\ pl = pos ++ gbytes gs /\
+    forall (keep : group -> bool) fuel, (depth_fields fs <= S fuel)%nat ->
+      let gs' := filter keep gs in
+      let missing := filter (fun t => negb (existsb (N.eqb t) (map g_tag gs'))) (required_tags fs) in
+      missing <> [] ->
+      dec_struct_with (dec fuel) fs (pos ++ gbytes gs') = Err (MissingRequiredTags (sort_N (dedup missing))).
+Proof.
+  unfold canon_anyorder. destruct v as [| | | | | | |vs]; try discriminate.
+  destruct (nodup_b (tags_of fs)) eqn:End; [|discriminate]. intros H.
+  destruct (canon_fields_pos fs vs None true pl (fun f _ => canon_sound _ _ (le_n _)) H)
+    as [ps [ts [Hfs [Hvs [Hpl [Hup [Htg [Hal [Henc [[Hpres Habs] Hpos]]]]]]]]]].
+  set (pfs := map (fun x : field * value * bytes => fst (fst x)) ps) in *.
+  set (tfs := map (fun s : tslot => fst (fst s)) ts) in *.
+  exists vs, (concat (map snd ps)), (groups_from (length pfs) ts).
+  split; [reflexivity|]. split; [rewrite gbytes_groups_from; exact Hpl|].
+  intros keep fuel Hf Hm. set (gs' := filter keep (groups_from (length pfs) ts)) in *. pose proof (fields_depth fs fuel Hf) as Hdep.
+  assert (Hnd : NoDup (tags_of tfs)).
+  { apply nodup_b_ok in End. rewrite Hfs, tags_of_app, (tags_of_untagged _ Hup) in End. exact End. }
+  assert (HpresN : forall k f v g, nth_error ts k = Some (f, v, Some g) ->
+            exists nm t ls e ty, f = Fld nm (Some t) ls e ty /\
+              (forall r, exists rest, tag_dec false (g ++ r) = Ok (t, rest)) /\
+              (forall r, next_ok t r -> dec fuel ls e ty (Some t) (g ++ r) = Ok (v, r))).
+  { intros k f v g Hn. apply nth_error_In in Hn. destruct (Hpres f v g Hn) as [nm [t [ls [e [ty [Ef [Hst Hd]]]]]]].
+    exists nm, t, ls, e, ty. split; [exact Ef|]. split; [exact Hst|]. intros r Hr. apply Hd; [|intros _; exact Hr].
+    subst f. apply (Hdep (Fld nm (Some t) ls e ty)). rewrite Hfs. apply in_or_app. right.
+    apply in_map_iff. exists (Fld nm (Some t) ls e ty, v, Some g). split; [reflexivity|exact Hn]. }
+  destruct (slots_facts (dec fuel) ps ts Hup Htg Hnd HpresN Habs) as [Hu [Hok [Hnt _]]].
+  fold pfs tfs in Hu, Hok, Hnt.
+  pose proof (missing_all_named (dec fuel) (pfs ++ tfs) ps gs' []) as T. cbv zeta in T.
+  rewrite !app_nil_r in T. rewrite Hfs. apply T.
+  - exact Hu.
+  - apply Hpos; [exact Hdep|exact I].
+  - unfold gs'. rewrite Forall_forall in *. intros g Hg. apply filter_In in Hg. apply Hok. apply Hg.
+  - unfold gs'. apply NoDup_map_filter. exact Hnt.
+  - unfold tail_ok. cbn. exact I.
+  - rewrite <- Hfs. exact Hm.
 Qed.
 
 (* the same inside the APDU of a command: class, instruction and length are those of the in-order encoding *)
